@@ -134,7 +134,7 @@ class C02(Prop):
 
     def cases(self, rng, tier):
         out = []
-        nprog = 2500 if tier == "thorough" else 220
+        nprog = 8000 if tier == "thorough" else 220
         for _ in range(nprog):
             self.tid = self.wid = self.fid = 0
             prog = [self.tree(rng, rng.choice([1, 2, 3])) for _ in range(rng.randint(1, 3))]
@@ -160,7 +160,7 @@ class C02(Prop):
                        "o%d.trace" % k: "+".join("74(%s)" % ",".join(enc_value(a) for a in call) for call in trace)}
                 out.append(Case("run", {"script": vlib.hx(src), "objs": "N", "ops": ";".join(ops)}, "structured", expect=exp, note=src,
                                 nontrivial=any(w in src for w in ("if", "while", "foreach", "switch"))))
-        n = 6000 if tier == "thorough" else 500
+        n = 20000 if tier == "thorough" else 500
         for _ in range(n):
             g = gen.Gen(rng, max_depth=2, illtyped=0.02, use_ternary=True)
             src = g.program(nstmts=rng.randint(2, 6), nfuncs=0, depth=rng.choice([2, 3]))
